@@ -231,6 +231,17 @@ def gen_finding():
         steps = [add(1, "probe", step=S // 2), add(2, "probe", step=S // 2),
                  dict(a="relink", m=1, role="src", vs=lnk(2, 0, 1, 0, 0)), dict(a="cb", frames=8)]
         scen.append({"buf": buf, "cap": 3, "mode": "exact", "src": "finding-late-link", "late": True, "steps": steps})
+        # the same re-linking in the order that has no lag (the source modulator was created first): the re-linked
+        # parameter follows its modulator for good, not just until the transition that installed the link is over
+        for role in ("am", "of", "fr"):
+            steps = [add(1, "tw"),
+                     add(2, "lfo", wave="pulse" if role != "fr" else "saw", width=S // 2, fr=fix(0), am=fix(S), of=fix(0)),
+                     dict(a="cb", frames=4),
+                     dict(a="relink", m=2, role=role, vs=lnk(1, 0, 2, 0, 2)),
+                     dict(a="cb", frames=4),
+                     dict(a="set", m=1, tgt=2 * S, dur=8, ease="lin", p=1, sk="imm", delay=0, ctgt=0),
+                     dict(a="cb", frames=8), dict(a="cb", frames=8)]
+            scen.append({"buf": buf, "cap": 3, "mode": "exact", "src": "directed-relink", "late": False, "steps": steps})
     return scen
 
 
